@@ -16,6 +16,7 @@ import (
 	"os"
 	"strconv"
 	"syscall"
+	"time"
 	"unsafe"
 
 	"github.com/cloudwego/dynamicgo/conv"
@@ -177,18 +178,48 @@ type skipItem struct {
 	res [4]c18Res
 }
 
+var c18SkipHangs int
+
 func (it *skipItem) run(fl int) {
 	p := thrift.BinaryProtocol{Buf: append([]byte(nil), it.b...)}
 	var e error
 	n := 0
-	ok, _ := noPanic(func() {
-		if fl == 3 {
-			e = p.SkipGo(it.t, thrift.MaxSkipDepth)
-		} else {
-			e = p.SkipNative(it.t, thrift.MaxSkipDepth)
+	ok := true
+	if fl == 3 {
+		// SkipGo under a watchdog: a skipper that moves the cursor backwards can loop forever; the spinning goroutine is abandoned
+		// (err 4 = no answer within the time limit) so that the case is reported instead of hanging the harness
+		type ans struct {
+			ok bool
+			e  error
+			n  int
 		}
-		n = p.Read
-	})
+		ch := make(chan ans, 1)
+		go func() {
+			var a ans
+			a.ok, _ = noPanic(func() {
+				a.e = p.SkipGo(it.t, thrift.MaxSkipDepth)
+				a.n = p.Read
+			})
+			ch <- a
+		}()
+		limit := 2 * time.Second
+		if c18SkipHangs >= 8 {
+			limit = 200 * time.Millisecond
+		}
+		select {
+		case a := <-ch:
+			ok, e, n = a.ok, a.e, a.n
+		case <-time.After(limit):
+			c18SkipHangs++
+			it.res[fl] = c18Res{err: 4}
+			return
+		}
+	} else {
+		ok, _ = noPanic(func() {
+			e = p.SkipNative(it.t, thrift.MaxSkipDepth)
+			n = p.Read
+		})
+	}
 	switch {
 	case !ok:
 		it.res[fl] = c18Res{err: 3}
@@ -270,6 +301,58 @@ func genC18Skip(r *rng, n int) []c18Item {
 	}
 	add(thrift.STRUCT, nil)
 	add(thrift.I32, []byte{1, 2})
+	// huge declared counts in short buffers: containers of fixed-width elements (every width) whose count x width does not fit the
+	// remaining bytes, incl. products that wrap at 32 bits (count x width = 2^31, 2^32, 2^32 + small, ...). The model's skip must fail
+	// (count exceeds the remaining bytes) and so must SkipGo and every flavour of SkipNative. Top level, inside a struct field, as the
+	// first element of an outer list, and as a map value.
+	fixed := []thrift.Type{thrift.BOOL, thrift.I08, thrift.I16, thrift.I32, thrift.I64, thrift.DOUBLE}
+	counts := []uint32{1 << 27, 1 << 28, 1 << 29, 1 << 30, 1<<31 - 1, 1<<29 + 1, 1<<28 + 2, 1<<30 + 3, 1<<31 - 8, 1 << 26, 1<<27 + 5}
+	be32 := func(b []byte, n uint32) []byte { return append(b, byte(n>>24), byte(n>>16), byte(n>>8), byte(n)) }
+	listHdr := func(et thrift.Type, n uint32) []byte { return be32([]byte{byte(et)}, n) }
+	mapHdr := func(kt, vt thrift.Type, n uint32) []byte { return be32([]byte{byte(kt), byte(vt)}, n) }
+	tails := func(h []byte) [][]byte { // header only, header + a few bytes, header + some lanes of zeros
+		return [][]byte{append([]byte(nil), h...), append(append([]byte(nil), h...), r.bytes(1+r.intn(7))...), append(append([]byte(nil), h...), make([]byte, 16+r.intn(64))...)}
+	}
+	embed := func(ct thrift.Type, body []byte) {
+		// inside a struct field (field 1, then STOP and padding)
+		st := append([]byte{byte(ct), 0, 1}, body...)
+		add(thrift.STRUCT, append(append(st, 0), make([]byte, r.intn(32))...))
+		// as the first element of an outer list of 2 containers
+		add(thrift.LIST, append(listHdr(ct, 2), body...))
+		// as a map value: map<i32, container>[1]
+		add(thrift.MAP, append(append(mapHdr(thrift.I32, ct, 1), 0, 0, 0, 7), body...))
+	}
+	for _, et := range fixed {
+		for _, n := range counts {
+			for i, b := range tails(listHdr(et, n)) {
+				add([]thrift.Type{thrift.LIST, thrift.SET}[r.intn(2)], b)
+				if i == 2 {
+					add(thrift.LIST, b)
+					add(thrift.SET, b)
+					embed([]thrift.Type{thrift.LIST, thrift.SET}[r.intn(2)], b)
+				}
+			}
+		}
+	}
+	for _, kt := range fixed {
+		for _, vt := range fixed {
+			for j := 0; j < 3; j++ {
+				n := counts[r.intn(len(counts))]
+				if j == 0 { // count x (key width + value width) lands on or just above a power of two when the pair width is one
+					w := uint32(thrift.TypeSize(kt) + thrift.TypeSize(vt))
+					n = uint32((uint64(1)<<uint(31+r.intn(2)))/uint64(w)) + uint32(r.intn(2))
+					if n >= 1<<31 {
+						n = 1<<31 - 1
+					}
+				}
+				bs := tails(mapHdr(kt, vt, n))
+				add(thrift.MAP, bs[r.intn(3)])
+				if j == 1 {
+					embed(thrift.MAP, bs[2])
+				}
+			}
+		}
+	}
 	// nesting depth around the limits (MaxSkipDepth = 1023 in Go, TB_SKIP_STACK_SIZE = 1024 in the native skipper):
 	// d nested lists list<list<...list<i32>>>, each with one element, the innermost one empty
 	for _, d := range []int{2, 500, 1000, 1021, 1022, 1023, 1024, 1025, 1026, 1100} {
